@@ -1,3 +1,4 @@
+pub mod c02;
 pub mod c07;
 pub mod c09;
 pub mod c10;
@@ -5,6 +6,7 @@ pub mod c11;
 pub mod c12;
 pub mod c16;
 pub mod c17;
+pub mod c18;
 pub mod c20;
 pub mod cmat;
 
@@ -12,6 +14,7 @@ use crate::runner::Check;
 
 pub fn all() -> Vec<Box<dyn Check>> {
     vec![
+        Box::new(c02::C02),
         Box::new(c07::C07),
         Box::new(c09::C09),
         Box::new(c10::C10),
@@ -22,6 +25,7 @@ pub fn all() -> Vec<Box<dyn Check>> {
         Box::new(cmat::C15),
         Box::new(c16::C16),
         Box::new(c17::C17),
+        Box::new(c18::C18),
         Box::new(cmat::C19),
         Box::new(c20::C20),
     ]
